@@ -1,13 +1,14 @@
 """C10 on the four real transports: a real ApplicationSession attached to a real WebSocket / RawSocket client protocol (this
 process's framework) against the scripted router; every endpoint behaviour must produce exactly one terminal reply on the wire.
 
-input: {cases: [[kind, ser, beh, async_, rp], ...]}
+input: {cases: [[kind, ser, beh, async_, rp, variant], ...]}
 """
 import os
 
 from harness import fw
 from harness.common import driver_in, driver_out
 from harness.wamprouter import RouterConn
+from harness.drivers.epshapes import callresult, plain_exception
 
 import txaio
 from autobahn.wamp import message, role
@@ -41,8 +42,24 @@ class Sess(ApplicationSession):
         self.errors.append(msg)
 
 
-def one(kind, sername, beh, is_async, rp):
-    obs = dict(esc="", replies=[], alive=False, calls=0, userErrors=0)
+LIMIT = 4096        # what both kinds of peer accept here
+
+
+def fitting(sername, total):
+    """a string result whose YIELD for request 9001 serialises to exactly `total` octets"""
+    ser = SER[sername]()
+    n = total
+    for _ in range(8):
+        size = len(ser.serialize(message.Yield(9001, args=["x" * n]))[0])
+        if size == total:
+            return "x" * n
+        n += total - size
+    raise RuntimeError("no string result fits %d octets exactly (%s)" % (total, sername))
+
+
+def one(kind, sername, beh, is_async, rp, var=0):
+    obs = dict(esc="", replies=[], alive=False, calls=0, userErrors=0, valuesOk=True, why="")
+    expect = {}
     try:
         sess = Sess(ComponentConfig(realm="realm1"))
         sess.errors = []
@@ -67,22 +84,33 @@ def one(kind, sername, beh, is_async, rp):
 
         def finish(details=None):
             if beh == "value":
+                if var % 2:
+                    v = fitting(sername, LIMIT)          # exactly as long as the peer accepts: not too long
+                    expect["ret"] = ([v], {})
+                    return v
+                expect["ret"] = ([42], {})
                 return 42
             if beh == "callresult":
-                return CallResult(1, 2, k="v")
+                cr, expect["ret"] = callresult(var)
+                return cr
             if beh == "none":
+                expect["ret"] = ([None], {})
                 return None
             if beh == "unserializable":
                 return Unserializable()
             if beh == "oversize":
-                return "x" * 20000
+                return fitting(sername, LIMIT + 1) if var % 2 else "x" * 20000
             if beh == "apperror":
+                expect["err"] = ("com.myapp.error1", ["bad"], {"x": 1})
                 raise ApplicationError("com.myapp.error1", "bad", x=1)
             if beh == "bigerror":
                 raise ApplicationError("com.myapp.error.big", "y" * 20000, why="z" * 300)
             if beh == "mapped":
+                expect["err"] = ("com.myapp.boom", ["mapped"], {})
                 raise Boom("mapped")
-            raise RuntimeError("unmapped")
+            exc, eargs = plain_exception(var)
+            expect["err"] = ("wamp.error.runtime_error", eargs, {})
+            raise exc
 
         def ep(*a, details=None, **kw):
             calls.append((a, kw))
@@ -111,6 +139,14 @@ def one(kind, sername, beh, is_async, rp):
             fw.settle()
         for _ in range(3):
             for m in conn.poll():
+                if isinstance(m, message.Yield) and not m.progress and "ret" in expect:
+                    if (list(m.args or []), dict(m.kwargs or {})) != expect["ret"]:
+                        obs["valuesOk"], obs["why"] = False, ("YIELD carried %r %r, endpoint returned %r" % (m.args, m.kwargs, expect["ret"]))[:200]
+                if isinstance(m, message.Error) and "err" in expect:
+                    ekw = dict(m.kwargs or {})
+                    ekw.pop("traceback", None)
+                    if (m.error, list(m.args or []), ekw) != expect["err"]:
+                        obs["valuesOk"], obs["why"] = False, ("ERROR carried %r %r %r, endpoint raised %r" % (m.error, m.args, m.kwargs, expect["err"]))[:200]
                 if isinstance(m, (message.Yield, message.Error)):
                     obs["replies"].append(dict(t="yield" if isinstance(m, message.Yield) else "error", req=m.request,
                                                progress=bool(getattr(m, "progress", False)),
@@ -127,7 +163,7 @@ def one(kind, sername, beh, is_async, rp):
         import traceback
         obs["esc"] = type(e).__name__ + ":" + str(e)[:80] + "|" + traceback.format_exc()[-300:]
     fw.reset()
-    return dict(ev="inv", kind=kind, ser=sername, beh=beh, isAsync=bool(is_async), rp=bool(rp), req=9001, obs=obs)
+    return dict(ev="inv", kind=kind, ser=sername, beh=beh, isAsync=bool(is_async), rp=bool(rp), var=var, req=9001, obs=obs)
 
 
 class LifeSess(ApplicationSession):
